@@ -23,7 +23,30 @@ import (
 	mockvdr "github.com/hyperledger/aries-framework-go/pkg/mock/vdr"
 )
 
-func routeKey(d int) string { return fmt.Sprintf("did:key:z6MkRouteKeyOfRecipient%d", d) }
+// routeKeyForm is the notation in which the recipients of the current history registered their route keys (and in
+// which forwards address them): 0 = a bare did:key, 1 = a key id of that did:key (DID URL with fragment), 2 = a key
+// id of another DID of the recipient (not the DID of its connection with the mediator).
+var routeKeyForm int
+
+func routeKey(d int) string {
+	switch routeKeyForm {
+	case 1:
+		return fmt.Sprintf("did:key:z6MkRouteKeyOfRecipient%d#z6MkRouteKeyOfRecipient%d", d, d)
+	case 2:
+		return fmt.Sprintf("did:peer:otherDidOfRecipient%d#key-1", d)
+	}
+
+	return fmt.Sprintf("did:key:z6MkRouteKeyOfRecipient%d", d)
+}
+
+// forwardType: both protocol versions of the forward message are served by the same handler.
+func forwardType(v2 bool) string {
+	if v2 {
+		return service.ForwardMsgTypeV2
+	}
+
+	return service.ForwardMsgType
+}
 
 // attachMediator builds a real mediator service over the world's store provider and message pickup service and
 // registers one route key per recipient (through the real keylist-update handler).
@@ -85,7 +108,7 @@ func (w *world) registerRoutes() {
 }
 
 // forward delivers a forward message for recipient d's route key to the mediator (relay fails unless w.relayOK).
-func (w *world) forward(d, m int) error {
-	return w.med.VerifHandleForward(mustMsg(map[string]interface{}{"@id": fmt.Sprintf("fwd-%d", m), "@type": service.ForwardMsgType,
+func (w *world) forward(d, m int, v2 bool) error {
+	return w.med.VerifHandleForward(mustMsg(map[string]interface{}{"@id": fmt.Sprintf("fwd-%d", m), "@type": forwardType(v2),
 		"to": routeKey(d), "msg": base64.StdEncoding.EncodeToString(payloadOf(m))}))
 }
